@@ -104,6 +104,12 @@ func TestC07(t *testing.T) {
 		}
 		sender := v.NextFresh()
 		makeCVA(v, sender, ov, start, end, extra)
+		senderRecorded := rapid.IntRange(0, 2).Draw(t, "senderRecorded") == 0
+		if senderRecorded {
+			// the sender is one of the vesting accounts the module keeps a record of (a genesis account, or one that
+			// came out of a pool or of an earlier split): that is bookkeeping, the schedule rules are the same
+			v.App.CfevestingKeeper.AppendVestingAccountTrace(v.Ctx, vestingtypes.VestingAccountTrace{Address: sender.String(), Genesis: rapid.Bool().Draw(t, "senderGenesis"), FromGenesisPool: rapid.Bool().Draw(t, "senderFromGenesisPool")})
+		}
 		hist := []string{fmt.Sprintf("sender ov=%s start=%d end=%d now=%d extra=%s bank transfers switched off for %q", ov, start, end, nowS, extra, offDenom)}
 
 		delegated, stakingFollowUp := false, false
@@ -381,6 +387,9 @@ func TestC07(t *testing.T) {
 		}
 		if nd > 1 {
 			classes["multi_denom"] = true
+		}
+		if senderRecorded {
+			classes["sender_recorded_by_the_module"] = true
 		}
 		if nd > 32 {
 			classes["more_than_32_denominations"] = true
